@@ -19,6 +19,11 @@ import Glom.Spec.C05
   (`c05_last_row`; before glom commit effa985 the loop went on into a last child that had returned
   normally: `c05_last_row_counterexample` about `unpackLoopOld`).
 
+  The property on the MESSAGE (`str()` of the error that left `glom()`; `checkMessageC05`): the
+  header `GlomError.__str__` writes is preamble (`c05_header_is_preamble`), a message without a
+  `Target:` line fails (`c05_message_needs_target_line`: the message of a wrapped KeyError / OSError /
+  user exception with its own `__str__` before glom commit 949a58d).
+
   *Partial*: the lift from rows to the rendered text (that `formatTrace`'s output satisfies the
   four clauses of `checkC05`) is not proved; it is validated on every run by evaluating
   `checkC05` on the model's and on the implementation's text (thousands of recorded evaluations,
@@ -222,5 +227,56 @@ private def exEvents : List Ev :=
 example : (unpack (replay exEvents) 1).map (·.frame) = [1, 2, 3] := by decide
 example : ((replay exEvents)[3]?.map (·.childErrors)) = some [4, 5] := by decide
 example : (unpack (replay exEvents) 3).map (·.branches) = [[4, 5]] := by decide
+
+/-! ### the property on the message (`str()` of the error that left `glom()`) -/
+
+/-- a line without a newline, followed by a newline, is a line of its own -/
+theorem splitLines_line (l rest : Str) (hl : l.all (fun c => c != '\n') = true) :
+    splitLines (l ++ '\n' :: rest) = l :: splitLines rest := by
+  induction l with
+  | nil => simp [splitLines]
+  | cons c cs ih =>
+    simp only [List.all_cons, Bool.and_eq_true, bne_iff_ne, ne_eq] at hl
+    simp only [List.cons_append, splitLines]
+    rw [if_neg (by simpa using hl.1), ih (by simpa using hl.2)]
+
+/-- **the header `GlomError.__str__` puts before the trace is preamble**: its two lines carry no
+    `Target:` label, so the trace read from a message starts in what follows the header. -/
+theorem c05_header_is_preamble (body : Str) :
+    msgTraceLines (msgHeader ++ body) = msgTraceLines body := by
+  have h1 : msgHeader ++ body =
+      "error raised while processing, details below.".toList ++ '\n' ::
+        (" Target-spec trace (most recent last):".toList ++ '\n' :: body) := by
+    have h0 : msgHeader = "error raised while processing, details below.".toList ++ '\n' ::
+        (" Target-spec trace (most recent last):".toList ++ ['\n']) := by decide +kernel
+    rw [h0]
+    simp only [List.append_assoc, List.cons_append, List.nil_append]
+  unfold msgTraceLines
+  rw [h1, splitLines_line "error raised while processing, details below.".toList _ (by decide +kernel),
+    splitLines_line " Target-spec trace (most recent last):".toList _ (by decide +kernel)]
+  have a1 : (afterLabel "Target".toList "error raised while processing, details below.".toList).isNone = true := by
+    decide +kernel
+  have a2 : (afterLabel "Target".toList " Target-spec trace (most recent last):".toList).isNone = true := by
+    decide +kernel
+  simp only [List.dropWhile_cons, a1, a2, if_true]
+
+/-- **a message without a `Target:` line does not satisfy the property**, whatever was evaluated
+    (before glom commit 949a58d the `str()` of a wrapped KeyError / OSError / user exception with its
+    own `__str__` was that class's text only). -/
+theorem c05_message_needs_target_line (evs : List Ev) (errText : Nat → Str) (e : Nat) (message : String)
+    (h : msgTraceLines (dropRootError errText e message.toList) = []) :
+    checkMessageC05 evs errText e message = false := by
+  have hc : checkC05 evs errText e (msgTrace errText e message) = false := by
+    unfold checkC05 clausesC05
+    simp only [msgTrace, h, joinNl]
+    have hl : splitLines (String.ofList ([] : Str)).toList = [[]] := by simp [splitLines]
+    simp only [hl]
+    split <;> simp [afterLabel, afterLabel.go, isPrefix]
+  simp [checkMessageC05, hc]
+
+/-- the message of `glom({'a': 1}, ('a', f))`, `f` raising `KeyError('k')`, before that repair -/
+example (evs : List Ev) :
+    checkMessageC05 evs (fun _ => "KeyError: 'k'".toList) 1 "'k'" = false :=
+  c05_message_needs_target_line evs _ 1 _ (by decide +kernel)
 
 end Glom.Props.C05
